@@ -1070,7 +1070,8 @@ Section Closure.
       + exists st'. split; [exact P | exact Q].
     - pose proof (render_to_lexp fx e false lvl Hf Hp Hl) as Hren. cbn [wsl] in Hren. rewrite app_nil_r in Hren.
       rewrite <- Hren. destruct (render_first (to_lexp false e)) as [r ->]. cbn [head_ok].
-      destruct (first_tok_prefix (to_lexp false e)) as [H|[H|[H|[H|[H|[H|[H|H]]]]]]]; rewrite H; exact I.
+      pose proof (first_tok_prefix (to_lexp false e)) as Hpt. unfold prefix_tt in Hpt.
+      repeat (destruct Hpt as [H|Hpt]; [rewrite H; exact I|]). rewrite Hpt; exact I.
   Qed.
 
   Lemma toks_call lvl n args : ident_text n = true ->
